@@ -12,6 +12,7 @@ use std::sync::{Arc, OnceLock};
 pub type S3Call<I, O> = for<'a> fn(&'a dyn S3, S3Request<I>) -> BoxFuture<'a, S3Result<S3Response<O>>>;
 
 pub const GEN_DEPTH: u32 = 6;
+pub const FULL_INPUT: &str = "=FULL(every member present, lists of two, all levels)";
 
 pub struct Driver<I: 'static, O: 'static> {
     name: &'static str,
@@ -25,7 +26,12 @@ impl<I: Gen, O: Gen> Driver<I, O> {
         Driver { name, call, in_alts: OnceLock::new(), out_alts: OnceLock::new() }
     }
     fn ia(&self) -> &Alts<I> {
-        self.in_alts.get_or_init(|| I::alts(Pos::Xml, GEN_DEPTH))
+        self.in_alts.get_or_init(|| {
+            let mut a = I::alts(Pos::Xml, GEN_DEPTH);
+            // the last alternative: the fully populated input (every member present at every level, lists of two)
+            a.push((FULL_INPUT.to_owned(), Arc::new(|v: &mut I| *v = I::full(Pos::Xml, 2 * GEN_DEPTH + 2))));
+            a
+        })
     }
     fn oa(&self) -> &Alts<O> {
         self.out_alts.get_or_init(|| {
